@@ -47,6 +47,12 @@ def runOp (args impl : List String) : Option (String × String) := do
       let cum := stageDurs.foldl (fun (acc : List Int × Int) d => (acc.1 ++ [acc.2], acc.2 + d)) ([], 0) |>.1
       (starts.zip cum).any fun (s, c) => match s with | some si => decide (si - s0 < c - 3) | none => false
     | _ => false
+  -- file mode made of users stages only: a users stage waits for its users, so at no time are more iterations in
+  -- flight than the largest stage has users
+  let stageSpecs : List (List String) := ((arg "file" "").splitOn ";").map fun (st : String) => st.splitOn ":"
+  let allUsers := arg "mode" "constant" = "file" ∧ stageSpecs.all fun (f : List String) => f.headD "" = "u"
+  let maxUsers : Int := stageSpecs.foldl (fun (m : Int) (f : List String) => max m ((f.getD 2 "0").toInt?.getD 0)) 0
+  let usersOverlap : Bool := allUsers && decide (n "maxflight" > maxUsers)
   let spec : String :=
     if prop = "C01" ∨ prop = "C16" then
       if n "inflight" ≠ 0 ∨ blocked then "ok"
@@ -62,7 +68,8 @@ def runOp (args impl : List String) : Option (String × String) := do
         else "ok"
     else if prop = "C02" then
       let started := n "started"; let dropped := res.getD 2 0; let sum := n "sumrates"
-      if started + dropped > sum then "FAIL more-started-plus-dropped-than-requested"
+      if n "inflight" = 0 ∧ ¬blocked ∧ met.getD 2 0 ≠ dropped then "FAIL dropped-iterations-not-reported-as-dropped-in-the-iteration-metric"
+      else if started + dropped > sum then "FAIL more-started-plus-dropped-than-requested"
       else if maxit = 0 ∧ ¬blocked ∧ n "inflight" = 0 ∧ started + dropped < sum - n "lastval" then "FAIL requested-iterations-neither-started-nor-dropped"
       else if maxit > 0 ∧ started ≥ maxit ∧ dropped > 0 ∧ arg "nodropexpected" "0" = "1" then "FAIL leftovers-after-max-iterations-reported-dropped"
       else "ok"
@@ -123,6 +130,7 @@ def runOp (args impl : List String) : Option (String × String) := do
       else if out "envAfter" ≠ "clean" then "FAIL stage-parameters-remain-set-after-the-run"
       else if n "stageOrderBad" ≠ 0 then "FAIL stages-not-sequential"
       else if stageEarly then "FAIL stage-started-before-the-previous-stages-had-run-their-durations"
+      else if usersOverlap then "FAIL users-of-two-stages-executing-at-the-same-time"
       else "ok"
     else "ok"
   pure ("-", spec)
